@@ -120,7 +120,7 @@ class OpenModel:
         self.body = cands[0]
         chk.saw(self.body)
         hdr = layout(fb, '::ShmHeader')
-        rec = layout(fb, 'clock_bound_shm::ClockErrorBound')
+        rec = layout(fb, '::ClockErrorBound')
         if not hdr or not rec:
             chk.missing(rule, 'layout of ShmHeader / ClockErrorBound')
             return
